@@ -42,8 +42,8 @@ PROP = dict(
         "`LoadOffset(x); Op(_, Top, Offset(y))` fusion needs y not to address the slot above the current top of stack "
         "(code generation only emits offsets of arguments, captures and locals)",
         "Reg::Offset values stay inside the 15-bit encoding (Reg::encode panics otherwise) and fewer than 65536 constants (`as u16`)",
-        "D32 (float fold of a NaN result loses the NaN's sign; fix queued: no fold when the result is NaN) and D33 (float unary minus "
-        "compiled as 0.0 - x) are modelled in their repaired form; until the fix commits land the check reports them as violations",
+        "D32 (float fold of a NaN result lost the NaN's sign; fixed by aa391e6: no fold when the result is NaN) and D33 (float unary minus "
+        "compiled as 0.0 - x) (fixed by 0513352) are modelled in their repaired form",
     ],
     design_ref="DESIGN.md §6 C05",
     level_text="Theorems over every machine state and every behaviour of the uninterpreted primitives: each *Imm instruction equals its plain twin "
